@@ -167,6 +167,7 @@ def concrete_5060(c, got):
 
 
 def run_item(item):
+    item.cross_check = True      # thorough tier: discharged obligations are re-decided by cvc5
     pm = load_repo()
     stubs.install_cap17_contract(pm)
     stubs.install_summaries(pm)
